@@ -141,13 +141,13 @@ func bind(rendered string) (map[int]int, error) {
 			if !ok {
 				return nil, fmt.Errorf("unreadable number %q", m[0])
 			}
-			if len(stack) == 0 {
-				return nil, fmt.Errorf("number %d is shown but belongs to no link", n)
+			id := anonymous // a number with no label before it: only right for a member whose label is an error text
+			if len(stack) > 0 {
+				id = stack[len(stack)-1]
+				stack = stack[:len(stack)-1]
 			}
-			id := stack[len(stack)-1]
-			stack = stack[:len(stack)-1]
 			if prev, dup := bound[n]; dup {
-				return nil, fmt.Errorf("number %d is shown for two links (%s and %s)", n, vgen.Label(prev), vgen.Label(id))
+				return nil, fmt.Errorf("number %d is shown for two links (%s and %s)", n, labelOf(prev), labelOf(id))
 			}
 			bound[n] = id
 		}
@@ -156,6 +156,15 @@ func bind(rendered string) (map[int]int, error) {
 		return nil, fmt.Errorf("link %s is shown without a number", vgen.Label(stack[len(stack)-1]))
 	}
 	return bound, nil
+}
+
+const anonymous = -1
+
+func labelOf(id int) string {
+	if id == anonymous {
+		return "(no label)"
+	}
+	return vgen.Label(id)
 }
 
 func check(c Case) vrep.Result {
@@ -168,24 +177,21 @@ func check(c Case) vrep.Result {
 	for _, l := range c.Doc.Links {
 		targets[l.ID] = l.Target
 	}
-	broken := 0
-	for _, a := range c.Atts {
+	// A member whose label cannot be determined is shown as an error text carrying its number (it occupies one:
+	// numbers are positions): the number must be there, without a label, and open the member's own target if it has
+	// one (or nothing) - never another link.
+	brokenAt := map[int]Att{}
+	for i, a := range c.Atts {
 		if a.Broken != "" {
-			broken++
+			brokenAt[len(c.Doc.Links)+i+1] = a
 			continue
 		}
 		targets[a.ID] = vgen.Target(a.ID)
 	}
-	// Open finding "attachment-without-label-leaves-gap": a member with nothing to show is printed as an inline error
-	// without a number but still occupies one, so the numbers shown have a gap. With the finding listed, only the
-	// no-gap clause is waived for such posts; every number that IS shown must still open the link it stands next to.
-	relaxed := broken > 0 && vrep.Excluded("attachment-without-label-leaves-gap")
-	if relaxed {
-		classes = append(classes, "broken-attachment-member(no-gap clause waived)")
-	} else if broken > 0 {
+	if len(brokenAt) > 0 {
 		classes = append(classes, "broken-attachment-member")
 	}
-	N := len(targets)
+	N := len(c.Doc.Links) + len(c.Atts)
 	rendered := item.String(c.Width)
 	bound, err := bind(rendered)
 	if err != nil {
@@ -194,21 +200,25 @@ func check(c Case) vrep.Result {
 	if len(bound) != N {
 		return vrep.Result{Classes: classes, Err: fmt.Errorf("%d numbers shown for %d links\nrendering:\n%s", len(bound), N, plainOf(rendered))}
 	}
-	if relaxed {
-		for k, id := range bound {
-			link, _, present := item.SelectLink(k)
-			if !present || link != targets[id] {
-				return vrep.Result{Classes: classes, Err: fmt.Errorf("number %d is shown next to %s (target %s) but opens %q (present=%v)\nrendering:\n%s", k, vgen.Label(id), targets[id], link, present, plainOf(rendered))}
-			}
-		}
-		return vrep.Result{Classes: classes, Nontrivial: true, Excluded: ""}
-	}
 	for k := 1; k <= N; k++ {
 		id, ok := bound[k]
 		if !ok {
 			return vrep.Result{Classes: classes, Err: fmt.Errorf("numbers are not 1..%d: %d is missing (shown: %v)\nrendering:\n%s", N, k, keys(bound), plainOf(rendered))}
 		}
 		link, _, present := item.SelectLink(k)
+		if a, isBroken := brokenAt[k]; isBroken {
+			if id != anonymous {
+				return vrep.Result{Classes: classes, Err: fmt.Errorf("number %d belongs to an attachment without a label but is shown next to %s\nrendering:\n%s", k, vgen.Label(id), plainOf(rendered))}
+			}
+			own := a.Broken != "no-url-no-name" && link == vgen.Target(a.ID)
+			if present && !own {
+				return vrep.Result{Classes: classes, Err: fmt.Errorf("number %d stands next to an attachment without a label (%s) but opens %q", k, a.Broken, link)}
+			}
+			continue
+		}
+		if id == anonymous {
+			return vrep.Result{Classes: classes, Err: fmt.Errorf("number %d is shown but belongs to no link\nrendering:\n%s", k, plainOf(rendered))}
+		}
 		if !present {
 			return vrep.Result{Classes: classes, Err: fmt.Errorf("number %d is shown for %s but opens nothing", k, vgen.Label(id))}
 		}
